@@ -251,7 +251,7 @@ def gen_ropts(rng, pf):
     # every read option also on an EMPTY selection (a handle that selects no row group); datasets without row groups come from n = 0
     if rng.random() < 0.15:
         ro["empty"] = "slice"
-    p_over = 0.5 if (ro.get("empty") or not pf.row_groups) else 0.12
+    p_over = 0.5 if (ro.get("empty") or not pf.row_groups) else (0.35 if stored else 0.12)
     if rng.random() < p_over and cols and ro["columns"] is None and not ro["categories"]:
         c = rng.choice(cols)
         t = D.dt_of(pf.dtypes[c])
@@ -262,6 +262,24 @@ def gen_ropts(rng, pf):
         # 'category') or by their VALUE types ('values': what _dtypes(categories=[]) says; columns read as categories, index
         # columns included, must still come back categorical)
         ro["dtypes_base"] = rng.choice(["pred", "values", "values"])
+        # ... crossed with the index choice: a stored categorical as index (None = the stored index, possibly categorical; a name; False)
+        if stored and ro["categories"] is None and rng.random() < 0.6:
+            ro["index"] = rng.choice([rng.choice(stored), rng.choice(stored), False, None])
+    return ro
+
+
+def gen_override_ropts(rng, pf):
+    """the to_pandas(dtypes=...) override crossed with categorical columns / a categorical index: the mapping describes every
+    column by its VALUE type (or as predicted), the index is a stored categorical / the stored index / suppressed"""
+    stored = list(pf.categories) if pf.has_pandas_metadata else []
+    ro = {"columns": None, "categories": None, "index": None, "dtypes": {}, "invalid_categories": False,
+          "dtypes_base": rng.choice(["values", "values", "pred"])}
+    if stored:
+        ro["index"] = rng.choice([rng.choice(stored), rng.choice(stored), None, False])
+    else:
+        ro["index"] = rng.choice([None, False] + list(pf.columns)[:1])
+    if rng.random() < 0.25:
+        ro["empty"] = "slice"
     return ro
 
 
@@ -831,6 +849,8 @@ def run(ctx):
             for k in range(per if src["source"] != "foreign" else nfor):
                 ro = gen_ropts(lrng, pf0) if k else {"columns": None, "categories": None, "index": None, "dtypes": None, "invalid_categories": False}
                 tuples.append((ro, (lrng.random() < 0.5) if k else True))
+            if src["source"] != "foreign" and (pf0.has_pandas_metadata and pf0.categories or lrng.random() < 0.3):
+                tuples.append((gen_override_ropts(lrng, pf0), lrng.random() < 0.7))
             tuples.append(({"sequence": gen_sequence(lrng, pf0, tuples)}, lrng.random() < 0.7))
         for ro, pn in tuples:
             case = dict(src)
@@ -858,6 +878,8 @@ def run(ctx):
             for k in range(per if job["src"]["source"] != "foreign" else nfor):
                 ro = gen_ropts(lrng, pf0) if k else {"columns": None, "categories": None, "index": None, "dtypes": None, "invalid_categories": False}
                 tuples.append((ro, (lrng.random() < 0.5) if k else True))
+            if job["src"]["source"] != "foreign" and (pf0.has_pandas_metadata and pf0.categories or lrng.random() < 0.3):
+                tuples.append((gen_override_ropts(lrng, pf0), lrng.random() < 0.7))
             tuples.append(({"sequence": gen_sequence(lrng, pf0, tuples)}, lrng.random() < 0.7))
         except Exception:       # noqa
             return [job]
